@@ -514,7 +514,12 @@ def _conclude(mod, prop: str, tier: str, seed: int, obs: List[Ob], results: List
         "wall_s": round(wall, 2),
         "violations": len(violations),
     }
-    if write:
+    if write and _REPO != "/repo":
+        # a run against a scratch copy of the repository (seed matrix) is not evidence about /repo
+        edir = os.environ.get("VERIF_SCRATCH", "/tmp")
+        with open(os.path.join(edir, prop + ".evidence.json"), "w") as f:
+            json.dump(evidence, f, indent=1, default=str)
+    elif write:
         os.makedirs(os.path.join(VERIF, "evidence"), exist_ok=True)
         tmp = os.path.join(VERIF, "evidence", prop + ".json.tmp")
         with open(tmp, "w") as f:
